@@ -580,6 +580,11 @@ def eval_cases_concrete(c: Contract, a: NS, kind: str, value: Any, wview: Any = 
 
 def replay_concrete(c: Contract, vals: dict[str, Any], model: Any, choice: dict[str, int]) -> dict[str, Any]:
     ev = _mk_eval(model)
+    if c.replay_hook is not None:
+        try:
+            return c.replay_hook({k: concretize(v, ev, live=False) for k, v in vals.items()})
+        except Exception as ex:  # noqa: BLE001
+            return {"confirmed": False, "note": f"replay hook error {type(ex).__name__}: {ex}"}
     if not c.replayable:
         return {"confirmed": False, "note": "the inputs of this contract are abstract models (no concrete realisation): the failed obligation and the solver model are the evidence"}
     if any(hasattr(x, "register") for x in vals.values()):
